@@ -166,28 +166,29 @@ type Divergence struct {
 	Table   string
 	Missing []string
 	Extra   []string
+	Join    bool // the statement was a multi-table query
 }
 
 // Exec drives engine + model.
 type Exec struct {
-	S       *SUT
-	M       *Model
-	Slots   map[int]*slotState
-	Snaps   []Snapshot // Snaps[i] = committed model state after i commits (i=0: state at start)
-	Commits int
-	Aborts  int
-	ConflictAborts int
-	Outcomes []OpOutcome
-	Div      []Divergence
-	Panic    *PanicInfo
-	CheckSelects bool // compare SELECT answers with the model (statement-level oracle)
-	PinCheck bool
-	PinViol  []string
-	PlanShapes map[string]int
+	S                    *SUT
+	M                    *Model
+	Slots                map[int]*slotState
+	Snaps                []Snapshot // Snaps[i] = committed model state after i commits (i=0: state at start)
+	Commits              int
+	Aborts               int
+	ConflictAborts       int
+	Outcomes             []OpOutcome
+	Div                  []Divergence
+	Panic                *PanicInfo
+	CheckSelects         bool // compare SELECT answers with the model (statement-level oracle)
+	PinCheck             bool
+	PinViol              []string
+	PlanShapes           map[string]int
 	PinGrowth, PinChecks int
-	PlanByStmt map[string]string // statement text -> plan shape (last execution)
-	StmtCount int
-	Txns      []*TxnRec
+	PlanByStmt           map[string]string // statement text -> plan shape (last execution)
+	StmtCount            int
+	Txns                 []*TxnRec
 }
 
 func NewExec(s *SUT, m *Model) *Exec {
@@ -215,6 +216,7 @@ func (e *Exec) fail(i int, pi *PanicInfo) OpOutcome {
 
 // Run executes op i. Returns false when the run cannot continue (engine panicked).
 func (e *Exec) Run(i int, op Op) bool {
+	progressTick()
 	out := e.run1(i, op)
 	e.Outcomes = append(e.Outcomes, out)
 	return out.Status != "panic"
@@ -311,7 +313,7 @@ func (e *Exec) run1(i int, op Op) OpOutcome {
 		if op.Stmt.Kind == "select" && e.CheckSelects {
 			want, got := canonRows(rows), canonRows(res.Rows)
 			if !sameStrings(want, got) {
-				e.Div = append(e.Div, Divergence{OpIndex: i, Class: "select-answer", Detail: fmt.Sprintf("%s: %s", op.Stmt.SQL(), diffStrings(want, got))})
+				e.Div = append(e.Div, Divergence{OpIndex: i, Class: "select-answer", Detail: fmt.Sprintf("%s: %s", op.Stmt.SQL(), diffStrings(want, got)), Join: op.Stmt.Join != nil})
 			}
 		}
 		return OpOutcome{"ok", ""}
@@ -410,7 +412,7 @@ func (e *Exec) run1(i int, op Op) OpOutcome {
 		if op.Stmt.Kind == "select" && e.CheckSelects {
 			want, got := canonRows(rows), canonRows(res.Rows)
 			if !sameStrings(want, got) {
-				e.Div = append(e.Div, Divergence{OpIndex: i, Class: "select-answer", Detail: fmt.Sprintf("%s: %s", op.Stmt.SQL(), diffStrings(want, got))})
+				e.Div = append(e.Div, Divergence{OpIndex: i, Class: "select-answer", Detail: fmt.Sprintf("%s: %s", op.Stmt.SQL(), diffStrings(want, got)), Join: op.Stmt.Join != nil})
 			}
 		}
 		return OpOutcome{"ok", ""}
